@@ -189,7 +189,9 @@ def run(F, R, tier):
             return None
         out = []
         rx = re.compile(r"^\(?(\w+)\.kind\(\) (==|!=) (?:io::)?ErrorKind::UnexpectedEof\)?$")
-        for x in H.walk(H.body_of(g)):
+        # (small helpers of the same file are read in place: `report_error(&err)` is the stderr write it performs)
+        gb = H.inline_helpers(F, H.body_of(g), max_size=60, skip=lambda c_: (F.fns.get(c_) or {}).get("file") != g["file"] or c_.startswith("builtins::functions::builtin_"))
+        for x in H.walk(gb):
             if x.get("k") == "if":
                 m = rx.match(H.render(x["c"]))
                 if m:
